@@ -2,6 +2,7 @@
 //! ndjson traces for TLC.  It never decides a property.
 mod enc;
 mod irenc;
+mod irgen;
 mod out;
 mod props;
 mod rng;
@@ -19,7 +20,10 @@ fn main() {
         usage();
     }
     // a panic of code under test is data: silence the default hook output
-    std::panic::set_hook(Box::new(|_| {}));
+    // (VERIF_DEBUG=1 keeps the default hook, to debug the harness itself)
+    if std::env::var("VERIF_DEBUG").is_err() {
+        std::panic::set_hook(Box::new(|_| {}));
+    }
     let mut seed = 1u64;
     let mut tier = "quick".to_string();
     let mut outdir = String::new();
